@@ -259,6 +259,376 @@ theorem answer_eq (z : Zone) (q : List Bytes) (qtype qclass maxAns : Nat) (l : B
     · simp only [if_neg h]
       exact answerAt_congr _ _ _ _ _ _ _ _ (by simp only [iff_true]; exact Or.inl h)
 
+/-! ### the wildcard walk of the spec -/
+
+theorem recordsFor_eq (recs : List Rec) (l : Bytes) (q cut : List Bytes) :
+    recordsFor recs l q cut =
+      if ¬ (recs.filter fun r => r.owner = q ∧ ¬ r.wild ∧ visible l r).isEmpty then
+        recs.filter fun r => r.owner = q ∧ ¬ r.wild ∧ visible l r
+      else recordsFor.up recs l cut q := rfl
+
+theorem up_nil (recs : List Rec) (l : Bytes) (cut : List Bytes) : recordsFor.up recs l cut [] = [] := rfl
+theorem up_cons (recs : List Rec) (l : Bytes) (cut : List Bytes) (lab : Bytes) (rest : List Bytes) :
+    recordsFor.up recs l cut (lab :: rest) =
+      if (lab :: rest) = cut then []
+      else if ¬ wildsafeLabel lab then []
+      else if ¬ (recs.filter fun r => r.owner = rest ∧ r.wild ∧ visible l r).isEmpty then
+        recs.filter fun r => r.owner = rest ∧ r.wild ∧ visible l r
+      else recordsFor.up recs l cut rest := rfl
+
+/-- `*.p` covers `q` inside the cut: `q = stripped ++ p`, at least one label stripped, every stripped
+label wild-safe, and the walk from `q` does not meet the cut before reaching `p`'s child -/
+def CoveredBy (q cut stripped p : List Bytes) : Prop :=
+  q = stripped ++ p ∧ stripped ≠ [] ∧ (∀ lab ∈ stripped, wildsafe lab = true) ∧
+    ∀ j, j < stripped.length → q.drop j ≠ cut
+
+theorem coveredBy_cons_iff (lab : Bytes) (rest cut stripped p : List Bytes) :
+    CoveredBy (lab :: rest) cut stripped p ↔
+      (lab :: rest) ≠ cut ∧ wildsafe lab = true ∧
+        ((stripped = [lab] ∧ p = rest) ∨ ∃ s', stripped = lab :: s' ∧ CoveredBy rest cut s' p) := by
+  constructor
+  · rintro ⟨hq, hne, hws, hcut⟩
+    cases stripped with
+    | nil => exact absurd rfl hne
+    | cons a s' =>
+      simp only [List.cons_append, List.cons.injEq] at hq
+      obtain ⟨ha, hrest⟩ := hq
+      subst ha
+      refine ⟨by simpa using hcut 0 (by simp), hws lab (by simp), ?_⟩
+      cases s' with
+      | nil => left; exact ⟨rfl, by simpa using hrest.symm⟩
+      | cons b s'' =>
+        right
+        refine ⟨b :: s'', rfl, hrest, by simp, fun x hx => hws x (List.mem_cons_of_mem _ hx), ?_⟩
+        intro j hj
+        have := hcut (j + 1) (by simp at hj ⊢; omega)
+        simpa using this
+  · rintro ⟨hne, hws, h⟩
+    rcases h with ⟨hs, hp⟩ | ⟨s', hs, hq, hne', hws', hcut'⟩
+    · subst hs; subst hp
+      refine ⟨rfl, by simp, by simpa using hws, ?_⟩
+      intro j hj
+      have : j = 0 := by simp at hj; omega
+      subst this; simpa using hne
+    · subst hs
+      refine ⟨by rw [hq]; rfl, by simp, ?_, ?_⟩
+      · intro x hx
+        rcases List.mem_cons.mp hx with h | h
+        · rw [h]; exact hws
+        · exact hws' x h
+      · intro j hj
+        cases j with
+        | zero => simpa using hne
+        | succ j => simpa using hcut' j (by simp at hj; omega)
+
+/-- every record the wildcard walk returns is a visible wildcard record of a covering `*.p` -/
+theorem up_mem (recs : List Rec) (l : Bytes) (cut : List Bytes) (q : List Bytes) (r : Rec)
+    (h : r ∈ recordsFor.up recs l cut q) :
+    ∃ stripped p, CoveredBy q cut stripped p ∧ r ∈ recs ∧ r.owner = p ∧ r.wild = true ∧ visible l r = true := by
+  induction q with
+  | nil => rw [up_nil] at h; cases h
+  | cons lab rest ih =>
+    rw [up_cons] at h
+    by_cases h1 : (lab :: rest) = cut
+    · rw [if_pos h1] at h; cases h
+    · rw [if_neg h1] at h
+      by_cases h2 : ¬ wildsafeLabel lab
+      · rw [if_pos h2] at h; cases h
+      · rw [if_neg h2] at h
+        have hws : wildsafe lab = true := by simpa [wildsafeLabel] using h2
+        by_cases h3 : ¬ (recs.filter fun r => r.owner = rest ∧ r.wild ∧ visible l r).isEmpty
+        · rw [if_pos h3] at h
+          have := List.mem_filter.mp h
+          simp only [decide_eq_true_eq] at this
+          exact ⟨[lab], rest, (coveredBy_cons_iff _ _ _ _ _).mpr ⟨h1, hws, Or.inl ⟨rfl, rfl⟩⟩,
+            this.1, this.2.1, this.2.2.1, this.2.2.2⟩
+        · rw [if_neg h3] at h
+          obtain ⟨s', p, hc, hr⟩ := ih h
+          exact ⟨lab :: s', p, (coveredBy_cons_iff _ _ _ _ _).mpr ⟨h1, hws, Or.inr ⟨s', rfl, hc⟩⟩, hr⟩
+
+/-- the walk finds nothing exactly when no covering wildcard owns a visible record -/
+theorem up_eq_nil_iff (recs : List Rec) (l : Bytes) (cut : List Bytes) (q : List Bytes) :
+    recordsFor.up recs l cut q = [] ↔
+      ∀ stripped p, CoveredBy q cut stripped p →
+        ∀ r ∈ recs, ¬ (r.owner = p ∧ r.wild = true ∧ visible l r = true) := by
+  induction q with
+  | nil =>
+    rw [up_nil]
+    simp only [true_iff]
+    rintro stripped p ⟨hq, hne, _, _⟩
+    cases stripped with
+    | nil => exact absurd rfl hne
+    | cons a s => simp at hq
+  | cons lab rest ih =>
+    rw [up_cons]
+    by_cases h1 : (lab :: rest) = cut
+    · rw [if_pos h1]
+      simp only [true_iff]
+      intro stripped p hc
+      exact absurd h1 ((coveredBy_cons_iff _ _ _ _ _).mp hc).1
+    · rw [if_neg h1]
+      by_cases h2 : ¬ wildsafeLabel lab
+      · rw [if_pos h2]
+        simp only [true_iff]
+        intro stripped p hc
+        have := ((coveredBy_cons_iff _ _ _ _ _).mp hc).2.1
+        exact absurd this (by simpa [wildsafeLabel] using h2)
+      · rw [if_neg h2]
+        have hws : wildsafe lab = true := by simpa [wildsafeLabel] using h2
+        by_cases h3 : ¬ (recs.filter fun r => r.owner = rest ∧ r.wild ∧ visible l r).isEmpty
+        · rw [if_pos h3]
+          constructor
+          · intro h; rw [h] at h3; simp at h3
+          · intro h
+            exfalso
+            apply h3
+            rw [List.isEmpty_iff, List.filter_eq_nil_iff]
+            intro r hr
+            have := h [lab] rest ((coveredBy_cons_iff _ _ _ _ _).mpr ⟨h1, hws, Or.inl ⟨rfl, rfl⟩⟩) r hr
+            simpa using this
+        · rw [if_neg h3, ih]
+          have h3' : ∀ r ∈ recs, ¬ (r.owner = rest ∧ r.wild = true ∧ visible l r = true) := by
+            have : (recs.filter fun r => r.owner = rest ∧ r.wild ∧ visible l r) = [] := by
+              simpa [List.isEmpty_iff] using h3
+            rw [List.filter_eq_nil_iff] at this
+            intro r hr; simpa using this r hr
+          constructor
+          · intro h stripped p hc
+            rcases ((coveredBy_cons_iff _ _ _ _ _).mp hc).2.2 with ⟨_, hp⟩ | ⟨s', _, hc'⟩
+            · rw [hp]; exact h3'
+            · exact h s' p hc'
+          · intro h stripped p hc
+            exact h (lab :: stripped) p ((coveredBy_cons_iff _ _ _ _ _).mpr ⟨h1, hws, Or.inr ⟨stripped, rfl, hc⟩⟩)
+
+/-! ### corollaries of `Spec.answer` alone -/
+
+theorem hasT_iff (recs : List Rec) (l : Bytes) (a : List Bytes) (t : Nat) :
+    hasT recs l a t = true ↔ ∃ r ∈ recs, r.owner = a ∧ r.wild = false ∧ r.type = t ∧ visible l r = true := by
+  simp [hasT]
+
+theorem answerAt_rcode_ne5 (recs l q qt qc m cut auth) (p : Prop) [Decidable p] :
+    (answerAt recs l q qt qc m cut auth p).rcode ≠ 5 := by
+  have : ∀ (c : Prop) [Decidable c], (if c then 3 else 0) ≠ 5 := by
+    intro c _; split <;> decide
+  exact this _
+
+/-- REFUSED exactly for names outside every served subtree -/
+theorem spec_refused_iff (z : Zone) (q : List Bytes) (qtype qclass maxAns : Nat) (l : Bytes) :
+    (Spec.answer z q qtype qclass maxAns l).rcode = 5 ↔
+      ∀ a ∈ ancestorsOrSelf q,
+        ¬ ∃ r ∈ z.recs, r.owner = a ∧ r.wild = false ∧ r.type = 2 ∧ visible l r = true := by
+  rw [answer_eq]
+  cases hc : cutOf z.recs l q with
+  | none =>
+    simp only [refused, true_iff]
+    unfold cutOf at hc
+    rw [List.find?_eq_none] at hc
+    intro a ha
+    rw [← hasT_iff]
+    exact hc a ha
+  | some cut0 =>
+    simp only []
+    constructor
+    · intro h; exact absurd h (answerAt_rcode_ne5 _ _ _ _ _ _ _ _ _)
+    · intro h
+      exfalso
+      unfold cutOf at hc
+      have hm := List.mem_of_find?_eq_some hc
+      have hp := List.find?_some hc
+      exact h cut0 hm ((hasT_iff _ _ _ _).mp hp)
+
+theorem spec_refused_empty (z : Zone) (q : List Bytes) (qtype qclass maxAns : Nat) (l : Bytes)
+    (h : (Spec.answer z q qtype qclass maxAns l).rcode = 5) :
+    let A := Spec.answer z q qtype qclass maxAns l
+    A.aa = false ∧ A.answer = [] ∧ A.answerAddrs = [] ∧ A.authority = [] ∧ A.additional = [] := by
+  rw [answer_eq] at h ⊢
+  cases hc : cutOf z.recs l q with
+  | none => simp [refused]
+  | some cut0 =>
+    rw [hc] at h
+    exact absurd h (answerAt_rcode_ne5 _ _ _ _ _ _ _ _ _)
+
+/-- the cut, authority flag and parent-served flag `Spec.answer` works with (after the DS step) -/
+def specCut (z : Zone) (q : List Bytes) (qtype : Nat) (l : Bytes) : Option (List Bytes × Bool × Bool) :=
+  (cutOf z.recs l q).map fun cut0 => cutAuth z.recs l q qtype cut0
+
+theorem answer_of_specCut (z : Zone) (q : List Bytes) (qtype qclass maxAns : Nat) (l : Bytes)
+    (cut : List Bytes) (auth ps : Bool) (h : specCut z q qtype l = some (cut, auth, ps)) :
+    Spec.answer z q qtype qclass maxAns l = answerAt z.recs l q qtype qclass maxAns cut auth (ps = true) := by
+  rw [answer_eq]
+  unfold specCut at h
+  cases hc : cutOf z.recs l q with
+  | none => rw [hc] at h; cases h
+  | some cut0 =>
+    rw [hc] at h
+    simp only [Option.map_some, Option.some.injEq] at h
+    simp only [h]
+
+theorem spec_nxdomain_iff (z : Zone) (q : List Bytes) (qtype qclass maxAns : Nat) (l : Bytes) :
+    (Spec.answer z q qtype qclass maxAns l).rcode = 3 ↔
+      ∃ cut ps, specCut z q qtype l = some (cut, true, ps) ∧ recordsFor z.recs l q cut = [] := by
+  cases hs : specCut z q qtype l with
+  | none =>
+    unfold specCut at hs
+    rw [answer_eq]
+    cases hc : cutOf z.recs l q with
+    | none => simp [refused]
+    | some c => rw [hc] at hs; cases hs
+  | some t =>
+    obtain ⟨cut, auth, ps⟩ := t
+    rw [answer_of_specCut z q qtype qclass maxAns l cut auth ps hs]
+    show (if auth = true ∧ (if auth = true then recordsFor z.recs l q cut else []).isEmpty = true then 3 else 0) = 3 ↔ _
+    cases auth with
+    | false => simp
+    | true => simp [List.isEmpty_iff]
+
+theorem recordsFor_eq_nil_iff (recs : List Rec) (l : Bytes) (q cut : List Bytes) :
+    recordsFor recs l q cut = [] ↔
+      (∀ r ∈ recs, ¬ (r.owner = q ∧ r.wild = false ∧ visible l r = true)) ∧
+      ∀ stripped p, CoveredBy q cut stripped p →
+        ∀ r ∈ recs, ¬ (r.owner = p ∧ r.wild = true ∧ visible l r = true) := by
+  rw [recordsFor_eq]
+  by_cases h : ¬ (recs.filter fun r => r.owner = q ∧ ¬ r.wild ∧ visible l r).isEmpty
+  · rw [if_pos h]
+    constructor
+    · intro h'; rw [h'] at h; simp at h
+    · rintro ⟨h1, _⟩
+      exfalso; apply h
+      rw [List.isEmpty_iff, List.filter_eq_nil_iff]
+      intro r hr; simpa using h1 r hr
+  · rw [if_neg h, up_eq_nil_iff]
+    have h' : ∀ r ∈ recs, ¬ (r.owner = q ∧ r.wild = false ∧ visible l r = true) := by
+      have : (recs.filter fun r => r.owner = q ∧ ¬ r.wild ∧ visible l r) = [] := by
+        simpa [List.isEmpty_iff] using h
+      rw [List.filter_eq_nil_iff] at this
+      intro r hr; simpa using this r hr
+    exact ⟨fun hh => ⟨h', hh⟩, fun hh => hh.2⟩
+
+/-- what `recordsFor` returns: the name's own visible records, or — only if it has none — visible
+wildcard records `*.p` with `p` a proper ancestor reached by stripping wild-safe labels without
+meeting the cut -/
+theorem recordsFor_mem (recs : List Rec) (l : Bytes) (q cut : List Bytes) (r : Rec)
+    (h : r ∈ recordsFor recs l q cut) :
+    r ∈ recs ∧ visible l r = true ∧
+      ((r.owner = q ∧ r.wild = false) ∨
+       ((∀ r' ∈ recs, ¬ (r'.owner = q ∧ r'.wild = false ∧ visible l r' = true)) ∧ r.wild = true ∧
+          ∃ stripped, CoveredBy q cut stripped r.owner)) := by
+  rw [recordsFor_eq] at h
+  by_cases h0 : ¬ (recs.filter fun r => r.owner = q ∧ ¬ r.wild ∧ visible l r).isEmpty
+  · rw [if_pos h0] at h
+    have := List.mem_filter.mp h
+    simp only [decide_eq_true_eq, Bool.not_eq_true] at this
+    exact ⟨this.1, this.2.2.2, Or.inl ⟨this.2.1, this.2.2.1⟩⟩
+  · rw [if_neg h0] at h
+    have h' : ∀ r ∈ recs, ¬ (r.owner = q ∧ r.wild = false ∧ visible l r = true) := by
+      have : (recs.filter fun r => r.owner = q ∧ ¬ r.wild ∧ visible l r) = [] := by
+        simpa [List.isEmpty_iff] using h0
+      rw [List.filter_eq_nil_iff] at this
+      intro r hr; simpa using this r hr
+    obtain ⟨stripped, p, hc, hr, ho, hw, hv⟩ := up_mem recs l cut q r h
+    exact ⟨hr, hv, Or.inr ⟨h', hw, stripped, ho ▸ hc⟩⟩
+
+theorem specCut_auth (z : Zone) (q : List Bytes) (qtype : Nat) (l : Bytes) (cut : List Bytes) (ps : Bool)
+    (h : specCut z q qtype l = some (cut, true, ps)) : hasT z.recs l cut 6 = true := by
+  unfold specCut at h
+  cases hc : cutOf z.recs l q with
+  | none => rw [hc] at h; cases h
+  | some cut0 =>
+    rw [hc] at h
+    simp only [Option.map_some, Option.some.injEq] at h
+    unfold cutAuth at h
+    simp only [] at h
+    split at h
+    · split at h
+      · simp only [Prod.mk.injEq] at h; rw [← h.1]; exact h.2.1
+      · simp at h
+    · simp only [Prod.mk.injEq] at h; rw [← h.1]; exact h.2.1
+
+theorem soaOf_of_hasT (recs : List Rec) (l : Bytes) (cut : List Bytes) (h : hasT recs l cut 6 = true) :
+    ∃ r ∈ recs, r.owner = cut ∧ r.wild = false ∧ r.type = 6 ∧ visible l r = true ∧
+      soaOf recs l cut = [⟨cut, 6, 1, r.ttl, r.rdata⟩] := by
+  unfold soaOf
+  cases h1 : recs.find? fun r => r.owner = cut ∧ ¬ r.wild ∧ r.type = 6 ∧ visible l r ∧ r.loc = l ∧ l ≠ [0, 0] with
+  | some r =>
+    have hm := List.mem_of_find?_eq_some h1
+    have hp := List.find?_some h1
+    simp only [decide_eq_true_eq, Bool.not_eq_true] at hp
+    exact ⟨r, hm, hp.1, hp.2.1, hp.2.2.1, hp.2.2.2.1, rfl⟩
+  | none =>
+    simp only []
+    cases h2 : recs.find? fun r => r.owner = cut ∧ ¬ r.wild ∧ r.type = 6 ∧ visible l r with
+    | some r =>
+      have hm := List.mem_of_find?_eq_some h2
+      have hp := List.find?_some h2
+      simp only [decide_eq_true_eq, Bool.not_eq_true] at hp
+      exact ⟨r, hm, hp.1, hp.2.1, hp.2.2.1, hp.2.2.2, rfl⟩
+    | none =>
+      exfalso
+      rw [List.find?_eq_none] at h2
+      obtain ⟨r, hr, hp⟩ := (hasT_iff _ _ _ _).mp h
+      have := h2 r hr
+      simp [hp] at this
+
+theorem spec_empty_auth_has_soa (z : Zone) (q : List Bytes) (qtype qclass maxAns : Nat) (l : Bytes)
+    (haa : (Spec.answer z q qtype qclass maxAns l).aa = true)
+    (hans : (Spec.answer z q qtype qclass maxAns l).answer = [])
+    (hgrp : ∀ g ∈ (Spec.answer z q qtype qclass maxAns l).answerAddrs, ∀ c ∈ g.cands, c.2.1 = 0) :
+    ∃ cut ps r, specCut z q qtype l = some (cut, true, ps) ∧ r ∈ z.recs ∧ r.owner = cut ∧ r.wild = false ∧
+      r.type = 6 ∧ visible l r = true ∧
+      (Spec.answer z q qtype qclass maxAns l).authority = [⟨cut, 6, 1, r.ttl, r.rdata⟩] := by
+  cases hs : specCut z q qtype l with
+  | none =>
+    unfold specCut at hs
+    rw [answer_eq] at haa
+    cases hc : cutOf z.recs l q with
+    | none => rw [hc] at haa; simp [refused] at haa
+    | some c => rw [hc] at hs; cases hs
+  | some t =>
+    obtain ⟨cut, auth, ps⟩ := t
+    rw [answer_of_specCut z q qtype qclass maxAns l cut auth ps hs] at haa hans hgrp ⊢
+    have ha : auth = true := haa
+    subst ha
+    obtain ⟨r, hr, ho, hw, ht, hv, hsoa⟩ := soaOf_of_hasT _ _ _ (specCut_auth z q qtype l cut ps hs)
+    refine ⟨cut, ps, r, rfl, hr, ho, hw, ht, hv, ?_⟩
+    rw [← hsoa]
+    unfold answerAt at hans hgrp ⊢
+    simp only [] at hans hgrp ⊢
+    rw [if_pos]
+    refine ⟨trivial, by rw [hans]; rfl, ?_⟩
+    simp only [List.any_eq_true, not_exists, not_and, Bool.not_eq_true]
+    intro g hg
+    unfold servedS
+    rw [List.any_eq_false]
+    intro c hc
+    have := hgrp g hg c hc
+    simp [this]
+
+theorem spec_referral (z : Zone) (q : List Bytes) (qtype qclass maxAns : Nat) (l : Bytes) (cut : List Bytes)
+    (hs : specCut z q qtype l = some (cut, false, true)) :
+    let A := Spec.answer z q qtype qclass maxAns l
+    A.rcode = 0 ∧ A.aa = false ∧ A.answer = [] ∧ A.answerAddrs = [] ∧
+      A.authority = (z.recs.filter fun r => r.owner = cut ∧ r.wild = false ∧ r.type = 2 ∧ visible l r).map
+        fun r => ⟨cut, 2, qclass, r.ttl, r.rdata⟩ := by
+  rw [answer_of_specCut z q qtype qclass maxAns l cut false true hs]
+  unfold answerAt nsOf
+  simp [matchingOf, plainOf, grpOf]
+
+/-- the cut is the closest ancestor-or-self owning a visible, non-wildcard NS record -/
+theorem cutOf_closest (recs : List Rec) (l : Bytes) (q cut : List Bytes) (h : cutOf recs l q = some cut) :
+    hasT recs l cut 2 = true ∧
+      ∃ closer farther, ancestorsOrSelf q = closer ++ cut :: farther ∧ ∀ a ∈ closer, hasT recs l a 2 = false := by
+  unfold cutOf at h
+  rw [List.find?_eq_some_iff_append] at h
+  obtain ⟨hp, as, bs, he, hn⟩ := h
+  exact ⟨hp, as, bs, he, fun a ha => by simpa using hn a ha⟩
+
+theorem specCut_plain (z : Zone) (q : List Bytes) (qtype : Nat) (l : Bytes) (cut : List Bytes)
+    (hq : qtype ≠ 43) (hc : cutOf z.recs l q = some cut) :
+    specCut z q qtype l = some (cut, hasT z.recs l cut 6, true) := by
+  unfold specCut cutAuth
+  rw [hc]
+  simp [hq]
+
 end SpecPieces
 
 end DnsVerif.ServeRefine
